@@ -920,6 +920,13 @@ def check(ctx):
         check_struct_block(ctx)
     except Undecided as e:
         ctx.undecided('R2-struct-block', ('bisturi/codegen.py', 'CodeGenerator'), 'struct blocks', str(e), 0, clause='d')
+    # Round 8: "unpack equal to the pattern" is Packet.__eq__: it compares every declared field (C20)
+    from .c20 import check_eq_shape
+    try:
+        pk_ = repo.cls('Packet')
+        check_eq_shape(ctx, pk_, repo.method(pk_, '__eq__'))
+    except Undecided as e:
+        ctx.undecided('R11-eq-shape', ('bisturi/packet.py', 'Packet.__eq__'), '__eq__', str(e), 0)
     check_prefix_and_match(ctx, repo)
     check_bits(ctx, repo)
     check_any(ctx, repo)
